@@ -14,7 +14,7 @@ from . import dsl
 from . import specfuns as SF
 from .values import *        # noqa
 from .values import Unsupported
-from .symexec import RaiseSig, ReturnSig, BreakSig, ContinueSig, PathEnd, exc_is_subclass
+from .symexec import RaiseSig, ReturnSig, BreakSig, ContinueSig, PathEnd, exc_is_subclass, BUILTIN_EXC_PARENTS
 
 TWO32 = 2 ** 32
 
@@ -40,6 +40,7 @@ LIB_AXIOMS = {
     'str.format': "'{},{}'.format(s, int) encodes to utf8(s) ++ b',' ++ decimal(int)",
     'time.time': 'time.time() returns the ghost clock `now` after an arbitrary non-negative computation delay accounted in `cpu` (A-REAL); A-EPOCH: 0 <= now < 2^32-1',
     'logging': 'A-LOG: calls on _LOGGER neither raise nor change program state',
+    'message-property-opaque': 'A-MSG fallback: a property of self read inside an error message / logger argument whose body is outside the encoded subset is taken not to raise',
     'Lock': 'threading.Lock / asyncio.Lock is a non-re-entrant mutex; `with` releases on every exit',
     'Queue': 'asyncio.Queue() is an unbounded FIFO: empty(), put_nowait appends, get_nowait pops the head (QueueEmpty when empty)',
     'dict': 'dict semantics for membership, item get/set/del, truthiness; iteration visits every item once (order not modelled)',
@@ -285,6 +286,8 @@ class World(object):
         if name in ('struct', 'socket', 'asyncio', 'usb1', 'select', 'io') and attr in ('error', 'TimeoutError', 'USBError', 'USBErrorNotFound', 'USBErrorTimeout',
                                                                                         'timeout', 'UnsupportedOperation', 'QueueEmpty'):
             return VClass('%s.%s' % (name, attr))
+        if name == 'usb1' and 'usb1.' + attr in BUILTIN_EXC_PARENTS:
+            return VClass('usb1.' + attr)
         if name == 'usb1' and attr in ('ENDPOINT_DIR_MASK', 'USB_ENDPOINT_DIR_MASK'):
             return VInt(0x80)
         if name == 'socket' and attr in ('SHUT_RDWR',):
@@ -362,6 +365,14 @@ class World(object):
             # the real class does have such an attribute: the sidecar class declaration is stale, nothing is known about the field
             raise Unsupported('%s.%s exists in the source but is not declared in the contract files (stale class declaration)' % (obj.cls, attr))
         raise RaiseSig(VExc('AttributeError'))
+
+    def is_property(self, obj, attr):
+        decl = dsl.CLASSES.get(obj.cls)
+        if decl is None or not decl.real.get(self.twin):
+            return False
+        modshort, clsname = decl.real[self.twin].split(':')
+        fn = self.find_method(self.sources.module(modshort), clsname, attr)
+        return fn is not None and any(isinstance(d, ast.Name) and d.id == 'property' for d in fn[0].decorator_list)
 
     def check_plain_field(self, ex, obj, attr):
         """A declared field must be a plain instance attribute of the real class.  If the class (or a base inside the package) now
@@ -535,6 +546,8 @@ class World(object):
         if isinstance(node.func, ast.Attribute) and isinstance(node.func.value, ast.Name) and node.func.value.id == '_LOGGER' \
                 and node.func.value.id not in ex.env:
             self.use('logging')
+            for a in list(node.args) + [k.value for k in node.keywords]:
+                ex.eval_property_reads(a)    # ... except reads of properties of the package's own classes, which run repository code
             return NONE                      # A-LOG: dropped together with its argument expressions
         if isinstance(node.func, ast.Attribute) and isinstance(node.func.value, ast.Name) and node.func.value.id == 'warnings' and node.func.attr == 'warn':
             self.use('logging')
@@ -2056,6 +2069,8 @@ def sp_zeros(w, ex, node):
 
 def sp_same(w, ex, node):
     a, b = _spec_args(ex, node)
+    if getattr(ex, 'in_define', False) and isinstance(a, VNone) != isinstance(b, VNone) and not isinstance(a, VOpt) and not isinstance(b, VOpt):
+        raise Unsupported('definitional binding between None and a value (the clause would exclude this exit)')
     return VBool(veq(a, b))
 
 
